@@ -457,6 +457,31 @@ theorem owner_match_forwards (h : Store) (l src : List ObjId) (nd : (names h src
     rw [share_aliases_idx _ src _ (by rw [ss.names]; exact nd) hsorted]
     simp
 
+/-! ## The model passes the check that is run on the implementation
+
+`checkStep` is what the driver evaluates on every (state before, operation, answer, state after)
+reconstructed from the *implementation's* answers; the clauses are Boolean forms of the theorems
+above (`clauseNames` ↔ `names_unique`, `clauseAtomic` ↔ `bulk_atomic_*`, `clauseApplies` ↔
+`bulk_applies_*`, `clauseMatch` ↔ `match_flag_exact` / `owner_forwards`, `clauseFresh` ↔
+`copy_independent` / `sublist_independent_*`, `clauseShare` ↔ `share_aliases_*`, `clauseDelete` ↔
+`delete_indices_exact` / `delete_name_exact`, `clauseAdd` ↔ `add_dup_refused`, `clauseFrame` ↔
+`frame`, `clauseLookup` ↔ `lookup_exact`). -/
+
+/-- **check_sound**: from every state satisfying the invariant, every operation of the model
+satisfies every clause, for any number `n` of observed registers. -/
+theorem check_sound (n : Nat) (s : State) (inv : Inv s) (op : Op) :
+    checkStep n s op (step s op).2.out (step s op).2.fired (step s op).1 = none := by
+  simp only [checkStep, clauseNames_sound n inv op, clauseOk_sound n inv op, clauseAtomic_sound n inv op,
+    clauseFrame_sound n s op, clauseApplies_sound inv op, clauseMatch_sound inv op, clauseFresh_sound inv op,
+    clauseShare_sound inv op, clauseDelete_sound op, clauseAdd_sound op, clauseLookup_sound op]
+  rfl
+
+/-- … hence along every history from the empty machine (without `setNamespace`). -/
+theorem check_sound_run (n : Nat) (ops : List Op) (hops : ∀ op ∈ ops, op.keepsNames = true) (op : Op) :
+    let s := run State.init ops
+    checkStep n s op (step s op).2.out (step s op).2.fired (step s op).1 = none :=
+  check_sound n _ (inv_run ops hops inv_init) op
+
 /-! ## The two defects of the unchanged tree (both repaired in the library) -/
 
 /-- before the repair, `setParameter(1, Parameter("a"))` on `[a, b]` gave the names `[a, a]` -/
